@@ -1526,14 +1526,17 @@ bintShiftRem(BInt b, int n)
 	
 	if (IsImmed(b)) {
 		IInt x = BIntToInt(b);
-		return IntToBInt(x & ((1 << n) - 1));
+		if (n >= INT_LG_IMMED) return b;
+		return IntToBInt(x & (((IInt) 1 << n) - 1));
 	}
+	if (n >= bintLength(b)) return bintCopy(b);
 
 	r = bintAlloc(n);
 	
 	for (i=0; i<Placea(r) - 1; i++) Placev(r)[i] = Placev(b)[i];
 	top = n - BINT_LG_RADIX*(Placec(r) - 1);
-	Placev(r)[i] = Placev(b)[i] & ((1<< top) - 1);
+	Placev(r)[i] = Placev(b)[i] & (((BIntD) 1 << top) - 1);
+	while (Placec(r) > 0 && Placev(r)[Placec(r)-1] == 0) Placec(r)--;
 
 	return xintImmedIfCan(r);
 }
